@@ -315,7 +315,7 @@ def regex_language(run: Run):
                 continue
             n += 1
             NONL = z3.Star(R.notchars(["\n"]))        # assumption: routed values contain no newline (Python's `.` excludes it)
-            res, w = R.equivalent(z3.Intersect(R.language(pat), NONL), z3.Intersect(spec_language(t), NONL), 5000)
+            res, w = R.equivalent(z3.Intersect(R.match_language(pat), NONL), z3.Intersect(spec_language(t), NONL), 5000)      # the emitted code calls .match()
             if res == "sat":
                 bad += 1
                 samples.append({"template": t, "regex": pat, "distinguishing_string": w})
